@@ -1863,3 +1863,86 @@ pub fn c19(tier: &str) -> Vec<Family> {
     }
     vec![Family::new("drop_points", TAGS_DROP, sc).cap(cap).hang_violation()]
 }
+
+// ---------------------------------------------------------------------------
+// Input-method flavours
+// ---------------------------------------------------------------------------
+
+fn sync_capable(ops: &[Op], with_cx: bool) -> bool {
+    ops.iter().all(|o| match o {
+        Op::Sched { .. } => with_cx,
+        Op::Cancel { .. } | Op::CancelClone { .. } | Op::DropAuto { .. } | Op::ReadTime | Op::Yield => true,
+        _ => false,
+    })
+}
+
+/// The same bench with every node whose scripts allow it switched to input
+/// methods of flavour `fl` (nodes that need to await keep the async form).
+fn flavoured_spec(spec: &BenchSpec, fl: Flavour) -> Option<Arc<BenchSpec>> {
+    let with_cx = fl == Flavour::SyncCx;
+    if !with_cx && spec.nodes.iter().any(|n| !n.init.is_empty()) {
+        // Context-free handlers read the time through the scheduler handle, which
+        // does not exist yet while init() runs.
+        return None;
+    }
+    let mut s = spec.clone();
+    let mut changed = false;
+    for n in s.nodes.iter_mut() {
+        if n.scripts.values().all(|ops| sync_capable(ops, with_cx)) {
+            n.flavour = fl;
+            changed = true;
+        }
+    }
+    if changed {
+        Some(Arc::new(s))
+    } else {
+        None
+    }
+}
+
+/// Adds, for each family named in `which`, a family `<name>/flavours` running its
+/// scenarios with non-async / context-free input methods wherever the scripts
+/// allow it (quick: one alternative flavour per scenario, rotating; thorough: all three).
+pub fn with_flavours(mut fams: Vec<Family>, which: &[&str], tier: &str) -> Vec<Family> {
+    let mut extra = vec![];
+    for f in fams.iter() {
+        if !which.contains(&f.name) {
+            continue;
+        }
+        let mut sc = vec![];
+        let mut cache: std::collections::HashMap<(usize, Flavour), Option<Arc<BenchSpec>>> = std::collections::HashMap::new();
+        for (i, s) in f.scenarios.iter().enumerate() {
+            let all = [Flavour::SyncCx, Flavour::SyncPlain, Flavour::AsyncPlain];
+            let chosen: Vec<Flavour> = if tier == "quick" { vec![all[i % 3]] } else { all.to_vec() };
+            for fl in chosen {
+                let key = (Arc::as_ptr(&s.spec) as usize, fl);
+                let sp = cache.entry(key).or_insert_with(|| flavoured_spec(&s.spec, fl)).clone();
+                // Fall back to the context-carrying sync form when the context-free one cannot run the scripts.
+                let (sp, fl) = match sp {
+                    Some(sp) => (Some(sp), fl),
+                    None if fl != Flavour::SyncCx => {
+                        let key = (Arc::as_ptr(&s.spec) as usize, Flavour::SyncCx);
+                        (cache.entry(key).or_insert_with(|| flavoured_spec(&s.spec, Flavour::SyncCx)).clone(), Flavour::SyncCx)
+                    }
+                    None => (None, fl),
+                };
+                if let Some(sp) = sp {
+                    sc.push(Scenario { spec: sp, cmds: s.cmds.clone(), label: format!("{}/{:?}", s.label, fl), prelude: s.prelude.clone() });
+                }
+            }
+        }
+        if sc.is_empty() {
+            continue;
+        }
+        let name: &'static str = Box::leak(format!("{}/flavours", f.name).into_boxed_str());
+        let mut g = Family::new(name, f.tags, sc);
+        g.dev_bound = f.dev_bound;
+        g.max_execs = f.max_execs;
+        g.invariant_outcome = false;
+        g.hang_is_violation = f.hang_is_violation;
+        g.base_secs = f.base_secs;
+        extra.push(g);
+    }
+    fams.extend(extra);
+    fams
+}
